@@ -7,8 +7,9 @@ HERE = os.path.dirname(os.path.abspath(__file__))
 
 
 def reexec_if_needed():
-    if os.environ.get("PYTHONHASHSEED") != "0":
-        env = dict(os.environ, PYTHONHASHSEED="0")
+    want = os.environ.get("VERIF_HASHSEED", "0")
+    if os.environ.get("PYTHONHASHSEED") != want:
+        env = dict(os.environ, PYTHONHASHSEED=want)
         os.execve(sys.executable, [sys.executable] + sys.argv, env)
 
 
@@ -47,10 +48,19 @@ def main():
                 return 1
             print("not reproduced")
             return 0
+        if args.what == "digests":
+            import json
+
+            merged, _, _ = runner.run_batch(args.path, "quick", seed, args.runs or 20, args.workers or 1, 600)
+            if merged["harness_errors"]:
+                print(merged["harness_errors"][0])
+                return 2
+            print("DIGESTS " + json.dumps(merged["digests"]))
+            return 0
         if args.what == "selftest-determinism":
             return selftest.determinism(seed, quick=args.tier == "quick")
         if args.what == "selftest-sensitivity":
-            return selftest.sensitivity(seed)
+            return selftest.sensitivity(seed, only=[args.path] if args.path else None)
         if args.what not in runner.PROPS:
             print(f"unknown check {args.what}")
             return 2
